@@ -10,7 +10,8 @@
                 and finalStates read: a recovered action whose durable value is (Running, 1, ok) is Completed in
                 memory and is WRITTEN Completed without being run.
      flush      a write that no handler takes and that is not a stutter (equal to the durable value) is accepted if
-                it equals the in-memory value of its object; it only updates the durable image.
+                it equals the in-memory value of its object; it only updates the durable image.  A NotStarted value
+                over a started object is flushed only after the terminal plan write (End's writeEverything).
      RRecover   fixBlock executes the sequences it finds Running after repairing them, before Recovery's switch:
                 exactly those sequences run (no launch guard), block after block; when they are all terminal the
                 repair is FINISHED with their outcomes (block and plan status), and the entry point is taken.
@@ -469,7 +470,11 @@ Definition flush (sh : shape) (r : rst) (e : event) : option rst :=
   | RIdle, _ => None
   | _, EvWrite OPlan _ _ _ _ => None
   | _, EvWrite o stt n lastok _ =>
+      (* a NotStarted value goes over a started object only in End's writeEverything, i.e. after the terminal plan
+         write: everywhere else the engine sets an object Running before it writes it *)
       if negb (released (r_s r)) && obj_in_shape sh o && cell_eqb (mget r o) (wcell stt n lastok)
+         && (negb (status_eqb stt NotStarted) || status_eqb (ist (s_img (r_s r)) o) NotStarted
+             || is_terminal (ist (s_img (r_s r)) OPlan))
       then Some (with_s r (put (r_s r) o stt n lastok)) else None
   | _, _ => None
   end.
